@@ -314,11 +314,24 @@ func (f *fctx) binop(ins *ssa.BinOp) {
 			t = T(SInt, "(tmod %s %s)", x.S, y.S)
 		}
 	case token.SHL:
-		f.oblige("S", fmt.Sprintf("S/shl@%s", f.insID(ins)), T(SBool, "(and (<= 0 %s) (< %s 64))", y.S, y.S), pos, "shift count in 0..63")
-		t = T(SInt, "(* %s (pow2 %s))", x.S, y.S)
+		// Go panics on a negative shift count only; counts >= 64 give 0
+		if !isUnsigned(ins.Y.Type()) {
+			f.oblige("S", fmt.Sprintf("S/shl@%s", f.insID(ins)), T(SBool, "(<= 0 %s)", y.S), pos, "shift count non-negative")
+		}
+		if isIntLiteral(y.S) {
+			t = T(SInt, "(* %s (pow2 %s))", x.S, y.S)
+		} else {
+			t = T(SInt, "(ite (>= %s 64) 0 (* %s (pow2 %s)))", y.S, x.S, y.S)
+		}
 	case token.SHR:
-		f.oblige("S", fmt.Sprintf("S/shr@%s", f.insID(ins)), T(SBool, "(and (<= 0 %s) (< %s 64))", y.S, y.S), pos, "shift count in 0..63")
-		t = T(SInt, "(div %s (pow2 %s))", x.S, y.S)
+		if !isUnsigned(ins.Y.Type()) {
+			f.oblige("S", fmt.Sprintf("S/shr@%s", f.insID(ins)), T(SBool, "(<= 0 %s)", y.S), pos, "shift count non-negative")
+		}
+		if isIntLiteral(y.S) {
+			t = T(SInt, "(div %s (pow2 %s))", x.S, y.S)
+		} else {
+			t = T(SInt, "(ite (>= %s 64) (ite (< %s 0) (- 1) 0) (div %s (pow2 %s)))", y.S, x.S, x.S, y.S)
+		}
 	default:
 		f.fail("integer operator %s", ins.Op)
 	}
